@@ -33,6 +33,7 @@ def families(tier, rng):
 
 
 def classify(pb, what):
+    """stable violation key (not a known finding any more: fixed by f977eba)"""
     if any(v == 1 for row in pb["grid"] for v in row):
         return "nurimisaki:clue-1"
     return None
